@@ -115,6 +115,24 @@ Proof.
   rewrite (grant_count_running id reqs st' (borrow_running _ _ _ _ Hb)). lia.
 Qed.
 
+(** simultaneous requests of one kind for different ids: never more tickets than the pool holds *)
+Definition tickets (f : bool) (st : rstate) : Z := if f then r_full st else r_incr st.
+
+Lemma borrow_tickets id f st st' : borrow id f st = Some st' -> 0 < tickets f st /\ tickets f st' = tickets f st - 1.
+Proof.
+  unfold borrow, tickets. destruct (is_running id st); [discriminate|].
+  destruct f; [destruct (0 <? r_full st) eqn:Ht | destruct (0 <? r_incr st) eqn:Ht]; try discriminate;
+    apply Z.ltb_lt in Ht; intros [= <-]; cbn; lia.
+Qed.
+
+Theorem grant_pool_bound f ids : forall st, 0 <= tickets f st -> Z.of_nat (grant_pool f ids st) <= tickets f st.
+Proof.
+  induction ids as [|id ids IH]; intros st H0; cbn [grant_pool]; [cbn; lia|].
+  destruct (borrow id f st) as [st'|] eqn:Hb; [|apply IH; exact H0].
+  destruct (borrow_tickets _ _ _ _ Hb) as [Hpos Hdec].
+  specialize (IH st' ltac:(lia)). lia.
+Qed.
+
 (** what the invariant means *)
 Lemma rinv_bounds capF capI st : rinv capF capI st ->
   NoDup (map fst (r_running st))
